@@ -129,6 +129,14 @@ open_("F-C01-border", "C01",
       patterns=[{"check": "undo", "keys": ["Border"], "cats": ["cell.style"]}],
       avoid=CLEAN_C01)
 
+open_("F-C01-links-after-structural", "C01",
+      "after row/column edits that moved a hyperlink next to an array formula, undoing an unrelated operation on the same cells drops the link",
+      hist("C01", 1, [I(0, 6, 3, "a\nb"), {"InsertRows": [0, 3, 1]}, I(0, 7, 6, "https://example.com"),
+                      {"ArrayFormula": [0, 6, 4, 3, 2, "=(2)*(D1)"]}, {"DeleteCols": [0, 1, 2]},
+                      {"Style": [0, 1, 4, 1, 1048576, "font.strike", "false"]}, "Undo"]),
+      patterns=[{"check": "undo", "keys": ["*"], "cats": ["cell.link"]}],
+      avoid=CLEAN_C01)
+
 # ---------------------------------------------------------------- C02
 CLEAN_HIST = CLEAN_C01
 ANYCELL = CELLCATS
@@ -261,6 +269,36 @@ fixed("FX-C03-sheet-index", "C03", "d0cfeae",
 fixed("FX-C28-redo-delete-first", "C28", "d0cfeae",
       "redo of deleting the first sheet with the last sheet selected left the selection past the end",
       hist("C28", 1, ["NewSheet", {"DeleteSheet": 0}, "Undo", {"SelectSheet": 1}, "Redo"]))
+
+# ---------------------------------------------------------------- C19 / C20
+fixed("FX-C19-trailing-group", "C19", "77b4316",
+      "\"1,\" (a group separator followed by nothing) was stored as the number 1",
+      {"text": "1,", "locale": "en"})
+fixed("FX-C19-double-group", "C19", "77b4316",
+      "\"1,,234\" was stored as the number 1234",
+      {"text": "1,,234", "locale": "en"})
+fixed("FX-C19-negative-currency-exponent", "C19", "433f9ca",
+      "-$1e3 was stored as +1000",
+      {"text": "-$1e3", "locale": "en"})
+fixed("FX-C20-ties", "C20", "a1be664",
+      "2.5 under the format 0 was displayed as 2 (ties were rounded to even on the binary expansion)",
+      {"x": 2.5, "code": "0", "locale": "en", "expected": "3", "tie": True, "class": "tie-int0"})
+fixed("FX-C20-below-one", "C20", "a1be664",
+      "0.1534616551198007 under #,##0.0 was displayed as 0.1",
+      {"x": 0.1534616551198007, "code": "#,##0.0", "locale": "en", "expected": "0.2", "tie": False, "class": "grouped"})
+fixed("FX-C20-sci-renormalise", "C20", "a1be664",
+      "99332.87055468571 under 0E+00 was displayed as 10E+04",
+      {"x": 99332.87055468571, "code": "0E+00", "locale": "en", "expected": "1E+05", "tie": False, "class": "sci"})
+fixed("FX-C20-sci-sign", "C20", "4a4bbf4",
+      "2.675 under 0.000000E+00 was displayed with E-00",
+      {"x": 2.675, "code": "0.000000E+00", "locale": "en", "expected": "2.675000E+00", "tie": False, "class": "sci"})
+fixed("FX-C20-minus-sign", "C20", "dc35bd8",
+      "-0.8219546932188211 under 00 was displayed as 01 (sign lost)",
+      {"x": -0.8219546932188211, "code": "00", "locale": "en", "expected": "-01", "tie": False, "class": "int00"})
+open_("F-C20-long", "C20",
+      "numbers whose displayed digits reach beyond the 15th significant digit are shown with 16-17 significant digits instead of zeros (9007199254740992 under # shows ...992)",
+      {"x": 9007199254740992.0, "code": "#", "locale": "es", "expected": "9007199254740990", "tie": False, "class": "long-hash"},
+      patterns=[{"check": "format-text", "keys": ["long-hash", "long-int0", "long-int00", "long-grouped", "long-percent"], "cats": ["*"]}])
 
 def main():
     os.makedirs(os.path.join(HERE, "findings"), exist_ok=True)
